@@ -39,7 +39,7 @@ func ruleHiddenSubtrees(c *core.Ctx, rule string) {
 	stateRoot := func(addr ssa.Value) ssa.Value {
 		switch x := addr.(type) {
 		case *ssa.Alloc:
-			if x.Comment != "complit" && x.Comment != "new" {
+			if !isLitAlloc(x) {
 				return x
 			}
 		case *ssa.FreeVar:
@@ -334,7 +334,7 @@ func ruleHiddenSubtrees(c *core.Ctx, rule string) {
 		})
 		c.Check(writes || already || failed, rule, vname, "DIR wound #"+ordinalOf(wl.fn, wl.alloc, func(in ssa.Instruction) bool {
 			a, ok := in.(*ssa.Alloc)
-			return ok && core.TypeName(a.Type()) == "pwr.Wound" && (a.Comment == "complit" || a.Comment == "new")
+			return ok && core.TypeName(a.Type()) == "pwr.Wound" && isLitAlloc(a)
 		})+" leaves a record", wl.alloc.Pos(),
 			"the branch that makes this wound writes the broken-directory record (or was taken because of it)",
 			"this way of finding a directory broken is not recorded: the entries below it are still examined through whatever stands in its place")
